@@ -4,6 +4,8 @@ import (
 	"errors"
 
 	z "github.com/Oudwins/zog"
+	"github.com/Oudwins/zog/conf"
+	"github.com/Oudwins/zog/zconst"
 	v "github.com/Oudwins/zog/zzverif"
 )
 
@@ -84,7 +86,7 @@ func isFocusPath(ps []string, k string) bool {
 func codesOf(l z.ZogIssueList) string {
 	s := ""
 	for _, e := range l {
-		s += e.Code + "|" + e.Dtype + "|" + e.Path + ";"
+		s += e.Code + "|" + e.Dtype + "|" + e.Path + "|" + e.Message + ";"
 	}
 	return s
 }
@@ -257,6 +259,7 @@ func C09_Jobs() []string {
 			}
 		}
 	}
+	out = append(out, "params-order", "input-key-order")
 	return out
 }
 func C09_Covers() []string { return []string{"both-clean", "both-issues"} }
@@ -279,7 +282,49 @@ func buildShape9(job string) *shape {
 	return sh
 }
 
+var c09Lang = zconst.LangMap{"number": {"between": "must be between {{lo}} and {{hi}}", "fallback": "invalid"}, "string": {"fallback": "invalid"}}
+
 func C09_Run(job string) {
+	switch job {
+	case "params-order":
+		// messages do not depend on the iteration order of an issue's params (the engine
+		// permutes the range over the params map in the formatter)
+		x := v.Int("x")
+		run := func() string {
+			var d int
+			errs := z.Int().TestFunc(func(val any, c z.Ctx) bool { return false }, z.IssueCode("between"), z.Params(map[string]any{"lo": 18, "hi": 65})).
+				Parse(x, &d, z.WithIssueFormatter(conf.NewDefaultFormatter(c09Lang)))
+			return fullCodes(errs)
+		}
+		a, b := run(), run()
+		v.Cover("both-issues")
+		v.Cover("both-clean")
+		v.Assert(a == b, "C09:issues-depend-on-order")
+		v.Assert(a == "between|number||must be between 18 and 65;", "C09:issues-depend-on-order")
+		return
+	case "input-key-order":
+		// the input map's keys are visited by the schema's order, never by the input's; a typed
+		// input map goes through a provider copy (maps.Copy in Merge, params) — run twice
+		x, y := v.Int("x"), v.Int("y")
+		g := v.Int("g")
+		run := func() (z.ZogIssueMap, [2]int) {
+			var d struct{ A, B int }
+			s1 := z.Struct(z.Schema{"a": z.Int().GT(g).Catch(1)})
+			s2 := z.Struct(z.Schema{"b": z.Int().GT(g).Required()})
+			errs := s1.Merge(s2).Parse(map[string]int{"a": x, "b": y}, &d)
+			return errs, [2]int{d.A, d.B}
+		}
+		e1, d1 := run()
+		e2, d2 := run()
+		if e1 == nil && e2 == nil {
+			v.Cover("both-clean")
+		} else {
+			v.Cover("both-issues")
+		}
+		v.Assert(sameMapsExcept(e1, e2, nil), "C09:issues-depend-on-order")
+		v.Assert(d1[0] == d2[0] && d1[1] == d2[1], "C09:destination-depends-on-order")
+		return
+	}
 	sh := buildShape9(job)
 	o1 := runReal(sh)
 	o2 := runReal(sh)
